@@ -194,19 +194,22 @@ Definition accepted_light (c : cell) : bool :=
   is_none (is_job_invalid_light_fn (blank_view c) (c_mode c) (c_hash c) (c_dir c) (c_klen c)).
 
 (* Candidate descriptors for the full check is_job_invalid(): every pointer non-NULL, in place
-   (dst = src + cipher offset, as PON demands), 64 bytes (or 512 bits) to cipher and hash, PLI 0,
-   no SGL segments; IV length and tag length range over the values any algorithm asks for. *)
-Definition cand_iv_lens : list N := [8; 12; 13; 16; 23; 25].
-Definition cand_tag_lens : list N := [4; 8; 12; 14; 16; 20; 24; 28; 32; 48; 64].
-Definition cand_lens : list (N * N) := [(64, 64); (512, 512); (64, 512); (512, 64); (0, 64)].
+   (dst = src + cipher offset, as PON demands), 64 bytes (or bits) to cipher and hash -- or nothing to
+   cipher, the only geometry DOCSIS-CRC32 takes with offset 0 --, PLI 0, no SGL segment array;
+   IV length and tag length range over values such that every algorithm finds one it takes. *)
+Definition cand_iv_lens : list N := [16; 12; 8; 25].
+Definition cand_tag_lens : list N := [16; 4; 12; 8; 20; 28; 32; 48; 64].
+Definition cand_lens : list (N * N) := [(64, 64); (0, 64)].
 
 Definition cand_view (c : cell) (ivl tagl clen hlen : N) : job_view :=
   let p := 4096 in
-  mk_job_view p p (c_klen c) p p 0 clen 0 hlen p ivl p tagl p p p
+  mk_job_view p p (c_klen c) p p 0 clen 0 hlen p ivl p tagl p 16 p
               (c_mode c) (c_dir c) (c_hash c) (c_order c) p p IMB_SGL_COMPLETE p
               p p p p p p 0 [].
 
-(* some well-formed descriptor with these session fields passes the full check *)
+(* (the hash-specific union u: first and third word are pointers, the second is a pointer or an
+   AAD / IV length: 16 serves as both)
+   some well-formed descriptor with these session fields passes the full check *)
 Definition accepted_full (c : cell) : bool :=
   existsb (fun ivl => existsb (fun tagl => existsb (fun '(clen, hlen) =>
      is_none (is_job_invalid_fn (cand_view c ivl tagl clen hlen) (c_mode c) (c_hash c) (c_dir c) (c_klen c)))
@@ -219,6 +222,25 @@ Definition accepted (c : cell) : bool := accepted_light c || accepted_full c.
 Definition excepted (c : cell) : bool :=
   existsb (fun '(m, k, h) => (c_mode c =? m) && ((k =? 0) || (c_klen c =? k)) && ((h =? 0) || (c_hash c =? h)))
           known_c06.
+
+
+(* ================================================================================== *)
+(* 5b. Dedicated pairings                                                               *)
+(* ================================================================================== *)
+
+(* cipher modes and hash algorithms that only make sense together *)
+Definition aead_pairs : list (N * N) :=
+  [(IMB_CIPHER_GCM, IMB_AUTH_AES_GMAC); (IMB_CIPHER_GCM_SGL, IMB_AUTH_GCM_SGL); (IMB_CIPHER_CCM, IMB_AUTH_AES_CCM);
+   (IMB_CIPHER_CHACHA20_POLY1305, IMB_AUTH_CHACHA20_POLY1305);
+   (IMB_CIPHER_CHACHA20_POLY1305_SGL, IMB_AUTH_CHACHA20_POLY1305_SGL);
+   (IMB_CIPHER_SNOW_V_AEAD, IMB_AUTH_SNOW_V_AEAD); (IMB_CIPHER_SM4_GCM, IMB_AUTH_SM4_GCM);
+   (IMB_CIPHER_PON_AES_CNTR, IMB_AUTH_PON_CRC_BIP)].
+(* hash algorithms that need one particular cipher mode, which itself also works alone *)
+Definition hash_needs_cipher : list (N * N) := [(IMB_AUTH_DOCSIS_CRC32, IMB_CIPHER_DOCSIS_SEC_BPI)].
+
+Definition pairing_ok (mode hash : N) : bool :=
+  forallb (fun '(m, h) => Bool.eqb (mode =? m) (hash =? h)) aead_pairs &&
+  forallb (fun '(h, m) => implb (hash =? h) (mode =? m)) hash_needs_cipher.
 
 (* ================================================================================== *)
 (* 6. The library's symbol naming convention                                            *)
@@ -553,8 +575,9 @@ Definition dir_symmetric (m : N) : bool :=
 Definition share_ok (a b : N * N * N) : bool :=
   let '(m1, k1, d1) := a in let '(m2, k2, d2) := b in
   ((m1 =? m2) && (k1 =? k2) && ((d1 =? d2) || dir_symmetric m1)) ||
-  (* PON: one key size behind all four key-class slots *)
+  (* PON: one key size behind all four key-class slots; CUSTOM: the caller's callback whatever the key length *)
   ((m1 =? IMB_CIPHER_PON_AES_CNTR) && (m2 =? IMB_CIPHER_PON_AES_CNTR) && (d1 =? d2)) ||
+  ((m1 =? IMB_CIPHER_CUSTOM) && (m2 =? IMB_CIPHER_CUSTOM)) ||
   (* DOCSIS SEC BPI is AES-CBC (+ CFB for the tail) *)
   ((k1 =? k2) && (d1 =? d2) &&
    (((m1 =? IMB_CIPHER_CBC) && (m2 =? IMB_CIPHER_DOCSIS_SEC_BPI)) || ((m2 =? IMB_CIPHER_CBC) && (m1 =? IMB_CIPHER_DOCSIS_SEC_BPI)))) ||
